@@ -88,6 +88,17 @@ Theorem C08_where_model_without_hit : forall T specs c,
 Proof. exact model_nohit_selects_nothing. Qed.
 Print Assumptions C08_where_model_without_hit.
 
+(** Where(model) with cache hits: a row selected for a model without uuid agrees
+    with the model on every column of an index for which the model holds a
+    value in every column (a key of a map column: the key is present) - the
+    fields a model leaves unset select nothing *)
+Theorem C08_where_model_uses_usable_index : forall T specs c,
+  Inv T specs c -> forall mvals u,
+  u ∈ rbm_step T specs c ∅ (None, mvals) ->
+  exists s r, s ∈ specs /\ usable T s mvals = true /\ rc_rows c !! u = Some r /\ K T s r = K T s mvals.
+Proof. exact where_model_uses_usable_index. Qed.
+Print Assumptions C08_where_model_uses_usable_index.
+
 (** The operations a conditional generates (Delete / Update / Mutate), executed
     by the transaction engine on a database the cache is synchronised with,
     affect exactly the rows List() reports: the counts add up to their number,
